@@ -2,6 +2,7 @@ package npm
 
 import (
 	"fmt"
+	"slices"
 	"strconv"
 	"strings"
 )
@@ -106,8 +107,8 @@ func parseSingleConstraint(c string) ([]*constraint, error) {
 		return parseTildeRange(c[1:])
 	}
 
-	// Handle x-range (1.x, 1.2.x)
-	if strings.Contains(c, "x") || strings.Contains(c, "X") {
+	// Handle x-range (1.x, 1.2.x): the wildcard is a whole dot-separated component
+	if slices.ContainsFunc(strings.Split(c, "."), func(part string) bool { return part == "x" || part == "X" }) {
 		return parseXRange(c)
 	}
 
